@@ -27,6 +27,7 @@ EXTENDS Charges
 CONSTANTS Profiles,   \* set of [n, mods, blk, sizes, rates]: number of legs, ChargeInfos, leg bound, 1/rate sample per position
           MaxPost,    \* number of conj / outer_conj steps after a Fuse
           PostRate,   \* 1 = conj / outer_conj after every pipe, r = after a seeded 1/r sample
+          ConvRate,   \* the LegCharge methods a pipe inherits (to_LegCharge, sort, bunch, project) are asked in a seeded 1/ConvRate sample of the pipe states
           MaxNest,    \* nesting depth (0 or 1)
           NestRate,   \* a seeded 1/NestRate sample of the pipes with at most NestMax indices is nested into a further pipe
           NestMax,
@@ -98,6 +99,9 @@ PipeConj(P) == [P EXCEPT !.legs = [l \in 1..Len(P.legs) |-> [P.legs[l] EXCEPT !.
 \* LegPipe.outer_conj(): "like conj, but don't change qconj for incoming legs": the outgoing leg is
 \* reversed, so its charges have to be negated for the pipe to remain the fusion of the same legs
 PipeOuterConj(M, P) == [P EXCEPT !.out = FlipLeg(M, P.out), !.truth = Truth(FlipLeg(M, P.out))]
+\* LegCharge.flip_charges_qconj() is inherited, not overridden: it works on copy(), and the copy of a pipe is a
+\* pipe over the SAME incoming legs; so it is outer_conj: same legs, same index map, same effective charges
+PipeFlip(M, P) == PipeOuterConj(M, P)
 
 ------------------------------------------------------------------------------
 (* theorems about one pipe record P over ChargeInfo M *)
@@ -164,13 +168,13 @@ TinyProfiles == {Prof(1, ModsQ01, 2, {0, 1, 2}, <<1>>), Prof(2, ModsQ1, 2, {1, 2
 
 QuickProfiles ==
     { Prof(1, ModsQ0, 3, {0, 1, 2}, <<1>>),
-      Prof(1, ModsQ1, 3, {0, 1, 2}, <<10>>),
-      Prof(1, ModsQ2, 2, {0, 1, 2}, <<60>>),
-      Prof(2, ModsQ0, 3, {0, 1, 2}, <<3, 10>>),
-      Prof(2, ModsQ1, 3, {0, 1, 2}, <<60, 260>>),
-      Prof(2, ModsQ2Few, 2, {0, 1, 2}, <<60, 220>>),
-      Prof(3, ModsQ01, 3, {0, 1, 2}, <<150, 400, 400>>),
-      Prof(3, ModsQ2Few, 2, {1, 2}, <<80, 100, 130>>) }
+      Prof(1, ModsQ1, 3, {0, 1, 2}, <<14>>),
+      Prof(1, ModsQ2, 2, {0, 1, 2}, <<80>>),
+      Prof(2, ModsQ0, 3, {0, 1, 2}, <<3, 14>>),
+      Prof(2, ModsQ1, 3, {0, 1, 2}, <<60, 360>>),
+      Prof(2, ModsQ2Few, 2, {0, 1, 2}, <<60, 300>>),
+      Prof(3, ModsQ01, 3, {0, 1, 2}, <<150, 400, 560>>),
+      Prof(3, ModsQ2Few, 2, {1, 2}, <<80, 100, 180>>) }
 
 ThoroughProfiles ==
     { Prof(1, ModsQ01, 3, {0, 1, 2}, <<1>>),
@@ -222,7 +226,8 @@ PInit == /\ CInit
          /\ full = NoFull
 
 \* hist: every operation with its arguments (l) and the outgoing leg it left behind (a)
-PLog == /\ hist' = Append(hist, [l |-> last', a |-> After(pipe'.out)])
+PLog == /\ hist' = Append(hist, [l |-> last', a |-> After(pipe'.out),
+                                 inq |-> [k \in 1..Len(pipe'.legs) |-> pipe'.legs[k].qconj]])   \* directions of the incoming legs
         /\ full' = FullOf(pipe', inner')
         /\ UNCHANGED <<leg, ref, obs>>
 
@@ -266,6 +271,46 @@ POuterConj == /\ PostOK /\ nops' = nops + 1
               /\ last' = [op |-> "outer_conj"]
               /\ UNCHANGED <<mods, phase, prof, legs, hacc, front, inner>> /\ PLog
 
+\* flip_charges_qconj() and copy() of a pipe (methods inherited from / shared with LegCharge)
+PFlip == /\ PostOK /\ nops' = nops + 1
+         /\ pipe' = PipeFlip(mods, pipe)
+         /\ last' = [op |-> "flip_charges_qconj"]
+         /\ UNCHANGED <<mods, phase, prof, legs, hacc, front, inner>> /\ PLog
+
+PCopy == /\ PostOK /\ nops' = nops + 1
+         /\ pipe' = pipe
+         /\ last' = [op |-> "copy"]
+         /\ UNCHANGED <<mods, phase, prof, legs, hacc, front, inner>> /\ PLog
+
+\* The LegCharge methods LegPipe does not implement for pipes convert to a plain LegCharge first:
+\* to_LegCharge() is the outgoing leg without the splitting information; sort / bunch / project return what
+\* LegCharge.sort / bunch / project return for that leg.  The pipe itself is not changed.  Terminal.
+ConvOK == phase = "pipe" /\ Keep(H2(hacc, (SumAll(pipe.map) + 13 * nops + 5) % HP), ConvRate)
+PLogL == /\ hist' = Append(hist, [l |-> last', a |-> After(leg'), inq |-> <<>>])
+         /\ obs' = LegObs(mods, leg')
+         /\ UNCHANGED full
+Conv(A) == /\ ConvOK /\ phase' = "done" /\ A
+           /\ UNCHANGED <<mods, nops, prof, legs, hacc, front, pipe, inner>> /\ PLogL
+
+PToLeg == Conv(/\ leg' = pipe.out /\ ref' = EffFlat(mods, pipe.out)
+               /\ last' = [op |-> "to_LegCharge"])
+PSortLeg == Conv(\E b \in BOOLEAN :
+                   LET r  == SortLeg(pipe.out, b)
+                       pf == PermFlatFromPermQind(pipe.out, r.perm)
+                       e  == EffFlat(mods, pipe.out)
+                   IN /\ leg' = r.leg /\ ref' = [i \in 1..Len(pf) |-> e[pf[i] + 1]]
+                      /\ last' = [op |-> "pipe_sort", bunch |-> b, perm |-> r.perm])
+PBunchLeg == Conv(LET r == BunchLeg(pipe.out)
+                  IN /\ leg' = r.leg /\ ref' = EffFlat(mods, pipe.out)
+                     /\ last' = [op |-> "pipe_bunch", idx |-> r.idx])
+\* a few structured masks (a pipe can have 2^216 of them): even / odd indices, first half, all but the last
+PipeMasks(n) == {m \in {[i \in 1..n |-> i % 2 = 0], [i \in 1..n |-> i % 2 = 1], [i \in 1..n |-> 2 * i <= n],
+                        [i \in 1..n |-> i < n]} : \E i \in 1..n : m[i]}
+PProjectLeg == Conv(\E mask \in PipeMasks(IndLen(pipe.out)) :
+                      LET r == ProjectLeg(pipe.out, mask)
+                      IN /\ leg' = r.leg /\ ref' = SelectMask(EffFlat(mods, pipe.out), mask)
+                         /\ last' = [op |-> "pipe_project", mask |-> mask, map_qind |-> r.map, block_masks |-> r.masks])
+
 \* the current pipe becomes the first (front = FALSE) or the last (front = TRUE) incoming leg of a further pipe
 PNest == /\ phase = "pipe" /\ inner = NoInner /\ MaxNest > 0 /\ prof.n >= 2
          /\ Len(pipe.map) <= NestMax
@@ -279,7 +324,8 @@ PNest == /\ phase = "pipe" /\ inner = NoInner /\ MaxNest > 0 /\ prof.n >= 2
          /\ phase' = "legs" /\ pipe' = NoPipe
          /\ UNCHANGED <<mods, hacc, nops>> /\ PLog
 
-PNext == PStart \/ PAddLeg \/ PFuse \/ PConj \/ POuterConj \/ PNest
+PNext == PStart \/ PAddLeg \/ PFuse \/ PConj \/ POuterConj \/ PFlip \/ PCopy \/ PNest
+         \/ PToLeg \/ PSortLeg \/ PBunchLeg \/ PProjectLeg
 
 PSpec == PInit /\ [][PNext]_pvars
 
@@ -317,6 +363,37 @@ OuterConjKeepsEffectiveCharge ==
               IN /\ TestEqual(mods, pipe.out, C.out) /\ C.out.qconj = -pipe.out.qconj
                  /\ C.legs = pipe.legs /\ C.map = pipe.map
                  /\ EffFlat(mods, C.out) = EffFlat(mods, pipe.out)
+
+\* what conj / outer_conj / flip_charges_qconj / copy may and may not change: the index map and q_map never;
+\* outer_conj, flip_charges_qconj and copy leave the incoming legs and every effective charge alone, conj reverses
+\* the direction of the pipe and of every incoming leg and nothing else  (with FusionRule and SplitAfterCombine
+\* in the state reached: the flipped pipe still fuses the same legs and split after combine is the identity)
+PostKeeps ==
+    [][ (phase = "pipe" /\ phase' = "pipe") =>
+          /\ pipe'.map = pipe.map /\ pipe'.qmap = pipe.qmap /\ pipe'.qslices = pipe.qslices
+          /\ pipe'.out.sizes = pipe.out.sizes
+          /\ last'.op \in {"outer_conj", "flip_charges_qconj", "copy"} =>
+                /\ pipe'.legs = pipe.legs /\ inner' = inner
+                /\ EffFlat(mods, pipe'.out) = EffFlat(mods, pipe.out)
+          /\ last'.op \in {"outer_conj", "flip_charges_qconj"} => pipe'.out.qconj = -pipe.out.qconj
+          /\ last'.op = "copy" => pipe' = pipe
+          /\ last'.op = "conj" =>
+                /\ pipe'.out.qconj = -pipe.out.qconj /\ pipe'.out.charges = pipe.out.charges
+                /\ \A l \in 1..Len(pipe.legs) : /\ pipe'.legs[l].qconj = -pipe.legs[l].qconj
+                                                 /\ pipe'.legs[l].charges = pipe.legs[l].charges
+                                                 /\ pipe'.legs[l].sizes = pipe.legs[l].sizes ]_pvars
+
+\* the conversions to a LegCharge: the pipe is untouched, the returned leg is the outgoing leg (sorted / bunched /
+\* projected as LegCharge does it); with ChargePreserved, FlagsTruthful, LegValid of module Charges on `leg`
+ConvPost ==
+    phase = "done" =>
+        /\ last.op = "to_LegCharge" => leg = pipe.out
+        /\ last.op = "pipe_sort" => /\ IsSortedCh(leg.charges) /\ IsPerm0(last.perm) /\ IndLen(leg) = IndLen(pipe.out)
+                                    /\ last.bunch => (IsBunchedCh(leg.charges) /\ IsBlockedCh(leg.charges))
+        /\ last.op = "pipe_bunch" => IsBunchedCh(leg.charges) /\ QFlat(leg) = QFlat(pipe.out)
+        /\ last.op = "pipe_project" => IndLen(leg) = Cardinality({i \in 1..Len(last.mask) : last.mask[i]})
+        /\ leg.qconj = pipe.out.qconj
+ConvKeepsPipe == [][ phase' = "done" => pipe' = pipe /\ inner' = inner ]_pvars
 
 \* split_legs(combine_legs(T)) = T on the dense level
 SplitAfterCombine ==
